@@ -3,6 +3,16 @@
 import json, subprocess
 ALL=[f"C{i:02d}" for i in range(1,21)]
 CHECKS={
+ "C08": dict(level="model_checking", engine="E2-bfs",
+   technique="explicit-state BFS over peer events and local calls on the real Stream in lock-step with an RFC 6455 control-plane model; outbound wire parsed by an independent parser",
+   text="Breadth-first search (depth 5 quick; thorough reaches the fixpoint of the abstract state space at depth 6, about 33k states) over 13 peer events (data, pings, pong, six close variants, RSV1 frame, transport EOF/error) and 10 local calls (4 read APIs, Write, AsyncWrite, Flush, AsyncFlush, Close, AsyncClose) from every reachable state; on every transition the complete outbound frame sequence, the call result class, exactly-once callbacks, Pending() and State() are compared with the model.",
+   note="In-memory transport with inline writes (read/write concurrency on a real socket is C17); blocking reads only where the model says they return; terminal State() values are not distinguished from each other; behaviour after a transport error is not constrained.",
+   design="4/C08, Appendix C"),
+ "C19": dict(level="exploration", engine="E1-dfs",
+   technique="exhaustive enumeration of payload sequences x transport behaviours x cut sets through real CodecConn+frame.Codec instances, judged against a reference encoding",
+   text="Writer: all sequences of <=3 payloads over sizes {0,1,2,255,256,4097}, blocking and async, partial acceptance and deferred completion; peer bytes must equal the reference encoding and nothing may stay in the write buffer. Reader: the same sequences, every cut set of <=2/3 cuts around every boundary and header byte, whole and byte-by-byte, blocking and async inline/deferred. Hostile: all 4-byte prefixes over a 7-letter alphabet that are over the limit or <=128 KiB, with tails, under every cut set.",
+   note="In-memory transport; declared lengths between 128 KiB and the 1 GiB limit are not driven (each would allocate that much); the FIFO-backed would-block variant is covered by C02's file transport.",
+   design="4/C19"),
  "C15": dict(level="exploration", engine="E1-dfs",
    technique="deviation-bounded stateless DFS: every single-violation mutation of generated conforming sessions at every frame position, through the real Stream on a scripted transport",
    text="Each of 17 violation kinds (RSV1-3, reserved opcodes 3-7 and B-F, masked frame, fragmented control frame, control payload 126, oversize frame, oversize message by fragments, continuation without start, data frame inside a fragmented message) is injected at every applicable frame position of every base session within the bounds, under all combinations of up to 2/3 deviations (fragmentation, control frames, extra message, trailing close, cuts, byte-by-byte), through the 4 read APIs inline and deferred; reporting, non-delivery, Close(1002) and write refusal are checked.",
